@@ -1,0 +1,51 @@
+//go:build verif
+
+package s2
+
+// Exported wrappers of the unexported functions of edge_clipping.go, used by the
+// model-based verification harness in /verif (spec/Clipping.tla).  This file is
+// only compiled with the "verif" build tag and adds no behaviour.
+
+import (
+	"github.com/golang/geo/r2"
+	"github.com/golang/geo/r3"
+)
+
+// VerifClipEdgeBound calls clipEdgeBound.
+func VerifClipEdgeBound(a, b r2.Point, clip, bound r2.Rect) (r2.Rect, bool) {
+	return clipEdgeBound(a, b, clip, bound)
+}
+
+// VerifClippedEdgeBound calls clippedEdgeBound.
+func VerifClippedEdgeBound(a, b r2.Point, clip r2.Rect) r2.Rect {
+	return clippedEdgeBound(a, b, clip)
+}
+
+// VerifEdgeIntersectsRect calls edgeIntersectsRect.
+func VerifEdgeIntersectsRect(a, b r2.Point, r r2.Rect) bool { return edgeIntersectsRect(a, b, r) }
+
+// VerifInterpolateFloat64 calls interpolateFloat64.
+func VerifInterpolateFloat64(x, a, b, a1, b1 float64) float64 {
+	return interpolateFloat64(x, a, b, a1, b1)
+}
+
+// VerifSumEqual calls sumEqual.
+func VerifSumEqual(u, v, w float64) bool { return sumEqual(u, v, w) }
+
+// VerifIntersectsFace calls pointUVW.intersectsFace on the normal n (in the (u,v,w)
+// coordinates of a face).
+func VerifIntersectsFace(n r3.Vector) bool { return pointUVW(Point{n}).intersectsFace() }
+
+// VerifIntersectsOppositeEdges calls pointUVW.intersectsOppositeEdges.
+func VerifIntersectsOppositeEdges(n r3.Vector) bool {
+	return pointUVW(Point{n}).intersectsOppositeEdges()
+}
+
+// VerifExitAxis calls pointUVW.exitAxis: 0 = u-axis, 1 = v-axis.
+func VerifExitAxis(n r3.Vector) int { return int(pointUVW(Point{n}).exitAxis()) }
+
+// VerifExitPoint calls pointUVW.exitPoint with the given axis (0 = u, 1 = v).
+func VerifExitPoint(n r3.Vector, ax int) r2.Point { return pointUVW(Point{n}).exitPoint(axis(ax)) }
+
+// VerifFaceSegmentParts returns the fields of a FaceSegment.
+func VerifFaceSegmentParts(s FaceSegment) (face int, a, b r2.Point) { return s.face, s.a, s.b }
